@@ -130,6 +130,16 @@ def contradicts : List String → List String → Bool
   | m :: ms, g :: gs => (m.endsWith "+" && (!(g.endsWith "+") || m != g)) || contradicts ms gs
   | _, _ => false
 
+def dropLast (s : String) : String := String.ofList s.toList.dropLast
+
+/-- the per-prefix strings correspond: the same `recover` outcome everywhere, and wherever the image satisfies the
+    discipline the real reopen was judged good.  (`LocalOK` is sufficient, not necessary: e.g. a pruning node that
+    rewinds below a mismatching canonical entry still satisfies the property.) -/
+def corresponds : List String → List String → Bool
+  | [], [] => true
+  | m :: ms, g :: gs => dropLast m == dropLast g && (!(m.endsWith "+") || g.endsWith "+") && corresponds ms gs
+  | _, _ => false
+
 def handle (l : String) : String :=
   let (inp, go) := splitCase l
   match inp.splitOn " | " with
@@ -159,6 +169,7 @@ def handle (l : String) : String :=
           | [_, r] => fields r
           | _ => []
         if m == go then m ++ "\tagree"
+        else if s!"V={v} L={ltxt}" == (go.splitOn " R=").headD "" && corresponds pr goR then go ++ "\tagree"
         else if contradicts pr goR then m ++ "\tspec-reject:image-satisfies-LocalOK-but-real-reopen-fails"
         else m ++ "\tspec-ok"
     | _ => "bad-op\tagree"
